@@ -33,7 +33,7 @@ MANIFEST = {
           "ref_op for every operator atom, argument tree and covering budget (dispatch + per-operator loop-vs-closed-form equalities for i c f r l x = >s "
           "sha256 substr strlen concat + - * / divmod > ash lsh logand logior logxor lognot not any all + the unknown-operator rule via C09); C01_path "
           "(traverse_path = ref_path); C01_costs_literal (every literal of the reference's cost table = the constant re-read from the Rust source); "
-          "C01_dom_classic_sound (an executable sound domain); C01_refuted_F6 (with the full domain the statement is FALSE: F6 through run_program). "
+          "C01_dom_classic_sound / C01_dom_const_sound (executable sound domains: classic opcodes; plus the constant-cost unknown operators); C01_refuted_F6 (with the full domain the statement is FALSE: F6 through run_program). "
           "NOT PROVED / outside the theorems: the F6 wrap class and >= 2^31-byte atoms (excluded by the domain), the allocator caps and STACK_SIZE_LIMIT "
           "(not in the tree-store machine), the reference's fidelity to the Python package (not installable offline). EXPLORED on the implementation: three "
           "voices (implementation, machine model, reference with the full domain) on every classic vector line as a program, on generated programs "
